@@ -9,11 +9,19 @@ use core::ops::Deref;
 #[cfg(not(kani))]
 pub fn d_dump_units() {
     use super::std;
-    for comma in [false, true].iter() {
+    // pass 0: '.' decimal; pass 1: the default ',' decimal; pass 2: ONE calculator that first converts under '.' decimal and is
+    // then switched to ',' decimal (amounts tagged @switched): separators may change between evaluations
+    for pass in 0..3 {
+        let comma = &(pass != 0);
         let mut calc = crate::SmartCalc::default();
-        if !*comma {
+        if pass != 1 {
             calc.set_decimal_seperator(".".to_string());
             calc.set_thousand_separator(",".to_string());
+        }
+        if pass == 2 {
+            for warm in ["2.5 inch to mm", "1.5 oz to g", "7.5 km to mile", "3.5 mb to kb"].iter() { let _ = calc.execute("en", warm.to_string()); }
+            calc.set_decimal_seperator(",".to_string());
+            calc.set_thousand_separator(".".to_string());
         }
         let mut names: Vec<String> = Vec::new();
         {
@@ -40,7 +48,7 @@ pub fn d_dump_units() {
                             }
                         }
                     }
-                    std::println!("UNITS {} {} {}{} {}", a, b, amount, if *comma { "@comma" } else { "" }, out);
+                    std::println!("UNITS {} {} {}{} {}", a, b, amount, if pass == 2 { "@switched" } else if *comma { "@comma" } else { "" }, out);
                 }
             }
         }
